@@ -119,15 +119,15 @@ type Mutation struct {
 
 // TxSpec is one entry on the transaction chain.
 type TxSpec struct {
-	From   int      `json:"from"`           // signing key index
-	RCDE   bool     `json:"rcde,omitempty"` // sign with the key's RCD-e identity
-	Parts  []TxPart `json:"parts,omitempty"`
-	Salt   int64    `json:"salt,omitempty"`   // seconds added to the entry timestamp to form the salt
-	Nonce  int      `json:"nonce,omitempty"`  // distinguishes otherwise identical entries (metadata field)
-	Minute int      `json:"minute,omitempty"` // 1..10, default 1
+	From   int       `json:"from"`           // signing key index
+	RCDE   bool      `json:"rcde,omitempty"` // sign with the key's RCD-e identity
+	Parts  []TxPart  `json:"parts,omitempty"`
+	Salt   int64     `json:"salt,omitempty"`   // seconds added to the entry timestamp to form the salt
+	Nonce  int       `json:"nonce,omitempty"`  // distinguishes otherwise identical entries (metadata field)
+	Minute int       `json:"minute,omitempty"` // 1..10, default 1
 	Mut    *Mutation `json:"mut,omitempty"`
-	DupOf  *Ref     `json:"dup_of,omitempty"` // byte-identical copy of an earlier entry
-	Raw    *RawSpec `json:"raw,omitempty"`
+	DupOf  *Ref      `json:"dup_of,omitempty"` // byte-identical copy of an earlier entry
+	Raw    *RawSpec  `json:"raw,omitempty"`
 	// Tag is free text for oracles / reports.
 	Tag string `json:"tag,omitempty"`
 	// Skip leaves the entry out of the chain while keeping spec coordinates
@@ -137,7 +137,7 @@ type TxSpec struct {
 
 // RawSpec is an arbitrary entry.
 type RawSpec struct {
-	ExtIDs  []string `json:"extids"` // hex
+	ExtIDs  []string `json:"extids"`  // hex
 	Content string   `json:"content"` // hex
 }
 
